@@ -105,7 +105,25 @@ impl<L: Language> Pattern<L> {
 impl<L: Language> RecExpr<L> {
     pub fn parse(s: &str) -> Result<Self, ParseError> {
         let pat = Pattern::parse(s)?;
+        // pattern variables and substitutions are not terms.
+        if !is_term(&pat) {
+            return Err(ParseError::TokenState(s.to_string()));
+        }
         Ok(pattern_to_re(&pat))
+    }
+}
+
+fn is_term<L: Language>(pat: &Pattern<L>) -> bool {
+    match pat {
+        Pattern::ENode(_, children) => {
+            for c in children.iter() {
+                if !is_term(c) {
+                    return false;
+                }
+            }
+            true
+        }
+        _ => false,
     }
 }
 
